@@ -1,5 +1,6 @@
 import LP.Props.C03
 import LP.Props.C03Greatest
+import LP.Props.C03Fp
 #print axioms LP.QPoly.toPoly_add
 #print axioms LP.QPoly.toPoly_mul
 #print axioms LP.QPoly.toPoly_trim
@@ -8,3 +9,5 @@ import LP.Props.C03Greatest
 #print axioms LP.MPoly.C03_gcd_divides
 #print axioms LP.C03_greatest_of_coprime
 #print axioms LP.C03_greatest_univariate
+#print axioms LP.FPoly.toPolyF_mul
+#print axioms LP.FPoly.coprimeCert_sound
